@@ -195,6 +195,7 @@ pub fn run_item(prop: &str, tier: &str, idx: usize, only: Option<&Value>) -> MRe
             res.evaluations += 2;
             let nontrivial = st.follows > 0 || path.contains("..") || matches!(want, Want::Err(libc::ELOOP) | Want::Err(libc::ENOTDIR));
             if nontrivial { res.nontrivial += 1; }
+            let mut undecided = false;
             for (bk, obs_list, wk) in [("K", &mut ko, &mut k), ("E", &mut eo, &mut e)] {
                 let mut got = got_of(&obs_list[i]);
                 // transient kernel EAGAIN / SafetyViolation caused by other shards' mounts and renames: re-run the single case
@@ -206,6 +207,12 @@ pub fn run_item(prop: &str, tier: &str, idx: usize, only: Option<&Value>) -> MRe
                     if tries > 3 { want = kernel_oracle(rootfd.as_raw_fd(), c); }
                 }
                 let obs = &obs_list[i];
+                if got != want && obs.msg.as_deref().map(|m| m.contains("racing filesystem changes caused openat2 to abort")).unwrap_or(false) {
+                    // openat2 kept aborting with EAGAIN through 50 re-runs: external rename/mount load; undecidable now
+                    res.count("transient_undecided", 1);
+                    undecided = true;
+                    continue;
+                }
                 res.outcome(format!("{}:{}", c.op.name, match &got { Want::Obj { .. } => "ok".into(), Want::Text(_) => "text".into(), Want::Err(e) => errname(*e) }));
                 let replay = json!({"engine": "lookup", "item": idx, "tree_idx": ti, "tree": tree.text(), "path": path, "op": c.op, "backend": bk});
                 if obs.panic.is_some() {
@@ -230,7 +237,7 @@ pub fn run_item(prop: &str, tier: &str, idx: usize, only: Option<&Value>) -> MRe
                         want_text(&want, &labels), want_text(&got, &labels), obs.msg.clone().unwrap_or_default()), replay.clone());
                 }
             }
-            if prop == "C04" {
+            if prop == "C04" && !undecided {
                 let (gk, ge) = (got_of(&ko[i]), got_of(&eo[i]));
                 let same_kind = ko[i].kind == eo[i].kind;
                 if gk != ge || !same_kind {
